@@ -71,6 +71,8 @@ def Impl.map {K K' : Type} (f : K → K') : Impl K → Impl K'
   | .realpart n => .realpart n
   | .imagpart n => .imagpart n
   | .cembed n a b => .cembed n (f a) (f b)
+  | .clscal n op a b nb => .clscal n (op.map f) (f a) (f b) (f nb)
+  | .crscal n op a b nb => .crscal n (op.map f) (f a) (f b) (f nb)
 
 section basics
 variable {K K' : Type}
@@ -96,6 +98,18 @@ theorem natK_eps (p : Nat) : (natK p : Dual R).eps = 0 := by
   induction p with
   | zero => rfl
   | succ p ih => simp [natK, ih]
+
+theorem cmulV_re (n : Nat) (a b nb : R) (X : Nat → Dual R) (k : Nat) :
+    (cmulV n (C a) (C b) (C nb) X k).re = cmulV n a b nb (fun k => (X k).re) k := by
+  simp only [cmulV]; split <;> simp
+
+theorem cmulV_eps (n : Nat) (a b nb : R) (X : Nat → Dual R) (k : Nat) :
+    (cmulV n (C a) (C b) (C nb) X k).eps = cmulV n a b nb (fun k => (X k).eps) k := by
+  simp only [cmulV]; split <;> simp
+
+theorem cmulV_lin (n : Nat) (a b nb c : R) (x y : Nat → R) :
+    cmulV n a b nb (fun k => c * x k + y k) = fun k => c * cmulV n a b nb x k + cmulV n a b nb y k := by
+  funext k; simp only [cmulV]; split <;> ring
 
 theorem pw_re (X : Dual R) (p : Nat) : (pw X p).re = pw X.re p := by
   induction p with
@@ -198,6 +212,12 @@ theorem run_map_re (i : Impl R) : ∀ (X : Vec (Dual R)) (k : Nat),
   | realpart n => intro X k; rfl
   | imagpart n => intro X k; rfl
   | cembed n a b => intro X k; simp only [Impl.map, Impl.run]; split <;> simp
+  | clscal n op a b nb ih =>
+    intro X k; simp only [Impl.map, Impl.run]
+    rw [cmulV_re]; simp only [cmulV]; split <;> simp [ih]
+  | crscal n op a b nb ih =>
+    intro X k; simp only [Impl.map, Impl.run]
+    rw [ih]; congr 1; funext q; exact cmulV_re n a b nb X q
 
 end dual
 
@@ -220,6 +240,21 @@ theorem run_mkLscal (op : Impl R) (s : R) (x : Vec R) (k : Nat) :
     (mkLscal op s).run x k = s * op.run x k := by
   cases op <;> simp [mkLscal, Impl.run]
   ring
+
+@[simp] theorem dom_mkRscal (op : Impl R) (s : R) : (mkRscal op s).dom = op.dom := by
+  cases op <;> rfl
+@[simp] theorem ran_mkRscal (op : Impl R) (s : R) : (mkRscal op s).ran = op.ran := by
+  cases op <;> rfl
+@[simp] theorem ranField_mkRscal (op : Impl R) (s : R) : (mkRscal op s).ranField = op.ranField := by
+  cases op <;> rfl
+@[simp] theorem isLinear_mkRscal (op : Impl R) (s : R) : (mkRscal op s).isLinear = op.isLinear := by
+  cases op <;> rfl
+@[simp] theorem wf_mkRscal (op : Impl R) (s : R) : (mkRscal op s).wf = op.wf := by
+  cases op <;> rfl
+theorem run_mkRscal (op : Impl R) (s : R) (x : Vec R) (k : Nat) :
+    (mkRscal op s).run x k = op.run (fun k => s * x k) k := by
+  cases op <;> simp only [mkRscal, Impl.run]
+  congr 1; funext q; ring
 
 @[simp] theorem dom_mkLmul (op : Impl R) (v : Vec R) : (mkLmul op v).dom = op.dom := by
   unfold mkLmul; split <;> simp [Impl.dom]
@@ -355,6 +390,20 @@ theorem deriv_type (i : Impl R) : ∀ x : Vec R, i.wf = true →
   | realpart n => intro x h; exact ⟨_, rfl, rfl, rfl, rfl, rfl, rfl⟩
   | imagpart n => intro x h; exact ⟨_, rfl, rfl, rfl, rfl, rfl, rfl⟩
   | cembed n a b => intro x h; exact ⟨_, rfl, rfl, rfl, rfl, rfl, rfl⟩
+  | clscal n op a b nb ih =>
+    intro x h
+    simp only [Impl.wf, Bool.and_eq_true, beq_iff_eq] at h
+    obtain ⟨j, e, w, d, r, f, n'⟩ := ih x h.1.1
+    simp only [Impl.deriv]
+    split
+    · refine ⟨_, rfl, ?_, rfl, rfl, rfl, ?_⟩ <;> grind [Impl.wf, Impl.isLinear]
+    · rw [e]; grind [Impl.wf, Impl.dom, Impl.ran, Impl.ranField, Impl.isLinear]
+  | crscal n op a b nb ih =>
+    intro x h
+    simp only [Impl.wf, Bool.and_eq_true, beq_iff_eq] at h
+    obtain ⟨j, e, w, d, r, f, n'⟩ := ih (cmulV n a b nb x) h.1
+    simp only [Impl.deriv]
+    rw [e]; grind [Impl.wf, Impl.dom, Impl.ran, Impl.ranField, Impl.isLinear]
 end typing
 
 section linearity
@@ -467,6 +516,18 @@ theorem linear_sem (i : Impl R) : i.wf = true → i.isLinear = true →
   | realpart n => intro _ _ a x y k; rfl
   | imagpart n => intro _ _ a x y k; rfl
   | cembed n a b => intro _ _ a' x y k; simp only [Impl.run]; split <;> ring
+  | clscal n op a b nb ih =>
+    intro hw hl c x y k
+    simp only [Impl.wf, Impl.isLinear, Bool.and_eq_true] at hw hl
+    simp only [Impl.run]
+    have : op.run (fun k => c * x k + y k) = fun k => c * op.run x k + op.run y k :=
+      funext (ih hw.1.1 hl c x y)
+    rw [this, cmulV_lin]
+  | crscal n op a b nb ih =>
+    intro hw hl c x y k
+    simp only [Impl.wf, Impl.isLinear, Bool.and_eq_true] at hw hl
+    simp only [Impl.run]
+    rw [cmulV_lin, ih hw.1 hl]
 
 theorem linear_zero (i : Impl R) (hw : i.wf = true) (hl : i.isLinear = true) (k : Nat) :
     i.run (fun _ => 0) k = 0 := by
@@ -511,6 +572,9 @@ theorem ranField_const (i : Impl R) : i.wf = true → i.ranField = true →
     simp only [Impl.wf, Impl.ranField, Bool.and_eq_true, beq_iff_eq] at hw hf
     simp only [Impl.run]
     rw [ihl hw.1.1.1.1 hf x k, ihr hw.1.1.1.2 (by rw [← hw.2]; exact hf) x k]
+  | crscal n op a b nb ih =>
+    intro hw hf x k; simp only [Impl.wf, Impl.ranField, Bool.and_eq_true] at hw hf
+    simp only [Impl.run]; exact ih hw.1 hf _ k
   | _ => intro _ hf; simp [Impl.ranField] at hf
 
 
@@ -581,9 +645,8 @@ theorem deriv_linear (i : Impl R) : i.wf = true → i.isLinear = true →
     split at e
     · rename_i o' eo
       cases e
-      rw [run_mkLscal, ih hw hl _ o' eo]
-      simp only [Impl.run]
-      rw [linear_smul op hw hl]
+      rw [run_mkRscal, ih hw hl _ o' eo]
+      rfl
     · cases e
   | bnil n => intro _ _ x j e d k; cases e; rfl
   | rnil n => intro _ _ x j e d k; cases e; rfl
@@ -639,6 +702,21 @@ theorem deriv_linear (i : Impl R) : i.wf = true → i.isLinear = true →
   | realpart n => intro _ _ x j e d k; cases e; rfl
   | imagpart n => intro _ _ x j e d k; cases e; rfl
   | cembed n a b => intro _ _ x j e d k; cases e; rfl
+  | clscal n op a b nb ih =>
+    intro hw hl x j e d k
+    simp only [Impl.isLinear] at hl
+    simp only [Impl.deriv, hl, if_true, Option.some.injEq] at e
+    subst e; rfl
+  | crscal n op a b nb ih =>
+    intro hw hl x j e d k
+    simp only [Impl.isLinear, Impl.wf, Bool.and_eq_true] at hl hw
+    simp only [Impl.deriv] at e
+    split at e
+    · rename_i o' eo
+      cases e
+      simp only [Impl.run]
+      exact ih hw.1 hl _ o' eo _ k
+    · cases e
 
 end linearity
 
@@ -780,17 +858,13 @@ theorem run_map_eps (i : Impl R) : i.wf = true → EpsOK i := by
     split at e
     · rename_i o' eo
       cases e
-      rw [run_mkLscal]
+      rw [run_mkRscal]
       simp only [Impl.map, Impl.run]
       have h1 := ih hw (fun k => C s * X k) o' eo k
       rw [h1]
       have h2 : epsV (fun k => C s * X k) = fun k => s * (X k).eps := by
         funext q; simp
       rw [h2]
-      obtain ⟨o'', eo', w, _, _, _, lin⟩ := deriv_type op (fun k => s * (X k).re) hw
-      rw [show (fun k => s * reV X k) = (fun k => s * (X k).re) from rfl] at eo
-      rw [eo] at eo'; cases eo'
-      exact linear_smul o' w lin s _ k
     · cases e
   | lvec op v ih =>
     intro hw X j e k
@@ -953,6 +1027,39 @@ theorem run_map_eps (i : Impl R) : i.wf = true → EpsOK i := by
   | cembed n a b =>
     intro _ X j e k; cases e
     simp only [Impl.map, Impl.run]; split <;> simp
+  | clscal n op a b nb ih =>
+    intro hw X j e k
+    simp only [Impl.wf, Bool.and_eq_true] at hw
+    simp only [Impl.deriv] at e
+    split at e
+    · rename_i hl
+      cases e
+      simp only [Impl.map, Impl.run]
+      rw [cmulV_eps]
+      congr 1; funext q
+      exact eps_of_linear op hw.1.1 hl (ih hw.1.1) X q
+    · split at e
+      · rename_i o' eo
+        cases e
+        simp only [Impl.map, Impl.run]
+        rw [cmulV_eps]
+        congr 1; funext q
+        exact ih hw.1.1 X o' eo q
+      · cases e
+  | crscal n op a b nb ih =>
+    intro hw X j e k
+    simp only [Impl.wf, Bool.and_eq_true] at hw
+    simp only [Impl.deriv] at e
+    split at e
+    · rename_i o' eo
+      cases e
+      simp only [Impl.map, Impl.run]
+      have h3 : cmulV n a b nb (reV X) = reV (cmulV n (C a) (C b) (C nb) X) := by
+        funext q; exact (cmulV_re n a b nb X q).symm
+      rw [h3] at eo
+      rw [ih hw.1 _ o' eo]
+      congr 1; funext q; exact cmulV_eps n a b nb X q
+    · cases e
 
 end soundness
 
@@ -980,6 +1087,10 @@ theorem IsHom.natK {φ : K → K'} (h : IsHom φ) (p : Nat) : φ (natK p) = natK
   induction p with
   | zero => exact h.zero
   | succ p ih => simp only [Deriv.natK, h.add, ih, h.one]
+
+theorem IsHom.cmulV {φ : K → K'} (h : IsHom φ) (n : Nat) (a b nb : K) (x : Nat → K) (k : Nat) :
+    φ (cmulV n a b nb x k) = Deriv.cmulV n (φ a) (φ b) (φ nb) (fun k => φ (x k)) k := by
+  simp only [Deriv.cmulV]; split <;> simp only [h.add, h.mul]
 
 theorem IsHom.sumTo {φ : K → K'} (h : IsHom φ) (n : Nat) (f : Nat → K) :
     φ (sumTo n f) = sumTo n (fun j => φ (f j)) := by
@@ -1045,6 +1156,14 @@ theorem run_map_hom {φ : K → K'} (h : IsHom φ) (i : Impl K) : ∀ (x : Vec K
   | realpart n => intro x k; rfl
   | imagpart n => intro x k; rfl
   | cembed n a b => intro x k; simp only [Impl.map, Impl.run]; split <;> simp [h.mul]
+  | clscal n op a b nb ih =>
+    intro x k; simp only [Impl.map, Impl.run]
+    rw [h.cmulV]; congr 1; funext q; exact ih x q
+  | crscal n op a b nb ih =>
+    intro x k; simp only [Impl.map, Impl.run]
+    have : Deriv.cmulV n (φ a) (φ b) (φ nb) (fun k => φ (x k)) = fun k => φ (cmulV n a b nb x k) := by
+      funext q; exact (h.cmulV n a b nb x q).symm
+    rw [this, ih]
 
 end hom
 
